@@ -10,7 +10,7 @@
    since the window was last reset by a transition to half-open or closed. *)
 From Coq Require Import ZArith.
 From stdpp Require Import list.
-From GV Require Import C47.Model C47.Window C47.Proofs C47.Conc.
+From GV Require Import C47.Model C47.Window C47.Proofs C47.Conc C47.Publish.
 Open Scope Z_scope.
 
 Section C47.
@@ -121,6 +121,18 @@ Section C47.
   Proof. exact (concurrent_probes_bounded cap). Qed.
 End C47.
 
+(* transitionTo(Open) stores the deadline before it makes Open visible (tryAcquire reads both without the
+   mutex): in every reachable configuration a visible Open comes with the deadline of its own open
+   period ... *)
+Theorem C47_deadline_armed_before_open_visible : forall s,
+  preach true s -> p_st s = Open -> p_until s = p_ghost s.
+Proof. exact deadline_armed_before_open_visible. Qed.
+
+(* ... which fails for the opposite order of the two stores. *)
+Theorem C47_state_first_refuted :
+  exists s, preach false s /\ p_st s = Open /\ p_until s = 0 /\ p_ghost s = 1000.
+Proof. exact state_first_shows_open_with_stale_deadline. Qed.
+
 Print Assumptions C47_window_totals.
 Print Assumptions C47_window_alignment.
 Print Assumptions C47_state_machine.
@@ -131,3 +143,5 @@ Print Assumptions C47_sem_bounded.
 Print Assumptions C47_sem_counts_probes.
 Print Assumptions C47_admitted_without_token_only_when_closed.
 Print Assumptions C47_concurrent_probes_bounded.
+Print Assumptions C47_deadline_armed_before_open_visible.
+Print Assumptions C47_state_first_refuted.
